@@ -2,6 +2,7 @@
 package p02
 
 import (
+	"context"
 	"fmt"
 	"os"
 	"os/exec"
@@ -9,6 +10,7 @@ import (
 	"regexp"
 	"strings"
 	"testing"
+	"time"
 
 	"pgregory.net/rapid"
 	"verif/harness/corpus"
@@ -81,7 +83,9 @@ func checkCLI(c Case) *h.Failure {
 	defer os.RemoveAll(dir)
 	f := filepath.Join(dir, "p.evy")
 	os.WriteFile(f, []byte(c.Src), 0o644) //nolint:errcheck
-	cmd := exec.Command(bin, "run", "--skip-sleep", f)
+	cctx, cancel := context.WithTimeout(context.Background(), 120*time.Second)
+	defer cancel()
+	cmd := exec.CommandContext(cctx, bin, "run", "--skip-sleep", f)
 	cmd.Env = append(os.Environ(), "GOMAXPROCS=2")
 	out, _ := cmd.CombinedOutput()
 	s := string(out)
